@@ -114,6 +114,11 @@ def main():
     spec = {"tier": a.tier, "A": {"options": dict(STRICT_OPTS)}, "B": {"options": dict(STRICT_OPTS), "lang": "numba"},
             "mode": "rel", "rel": 1e-9, "what": "C backend vs numba backend"}
     run_cases(chk, "vlib.kvk", "compare", names, spec, a.jobs)
+    from vlib import randforms
+    rnames = [randforms.name_of(chk.seed, i) for i in range(12 if a.tier == "quick" else 160)] if not a.only else []
+    run_cases(chk, "checks.c18", "validity_case", rnames, {"tier": a.tier}, a.jobs)
+    run_cases(chk, "vlib.kvk", "compare", rnames, dict(spec, tier="quick"), a.jobs)
+    chk.extra["random_forms"] = len(rnames)
     chk.encoded("generated *_numba.py kernels (python ast front-end) and C kernels of the same form", "numba/formatter.py spelling of operators and math functions (through the emitted text)", "codegeneration.common.tensor_sizes (declared carray sizes)")
     chk.bounds = {"programs": len(names), "inputs": "all symbolic", "literals": "C text 16 significant digits, numba text shortest repr: compared at 1e-9 relative"}
     chk.assumptions = ["exact arithmetic", "numba.carray modelled as a view of the caller's buffer", "numpy semantics of np.* calls as implemented in the executor"]
